@@ -406,6 +406,8 @@ CORPUS_UNIT = [(1024, [
 ROUTES = ["sync", "pool", "uring", "posix"]
 PATHS = ["d0", "d1", "d0/d2", "d0/f0", "d0/f1", "d1/f0", "f2", "d0/d2/f3", "l0", "d0/l1", "nope", "d1/nope/x", "f2/x"]
 FILES = ["d0/f0", "d0/f1", "d1/f0", "f2", "d0/d2/f3"]
+# unusual but legal names (dot-prefixed other than . and .., space, UTF-8, NAME_MAX) in directories that get scanned
+ODD = ["d0/..data", "d0/...", "d0/.x", "d1/..", "d0/a%20b", "d0/%C3%A9%E2%82%AC", "d1/%r255z", "d0/..2024_01", "d0/-", "d1/.%20"]
 
 
 def gen_prog(rng, nops):
@@ -432,7 +434,7 @@ def gen_prog(rng, nops):
         r = rng.below(100)
         if r < 12:
             s = rng.below(6); opened.add(s)
-            prog.append(f"open {s} {rng.choice(FILES + [P()])} {rng.choice(['rwc', 'rwc', 'rw', 'r', 'wc', 'wct', 'rwca', 'rwcx', 'rd', 'w'])} {rng.choice(['644', '600', '755'])}")
+            prog.append(f"open {s} {rng.choice(FILES + ODD + [P()])} {rng.choice(['rwc', 'rwc', 'rw', 'r', 'wc', 'wct', 'rwca', 'rwcx', 'rd', 'w'])} {rng.choice(['644', '600', '755'])}")
         elif r < 24:
             prog.append(f"write {S()} {off()} {rng.below(50)} {lens()}")
         elif r < 34:
@@ -450,13 +452,13 @@ def gen_prog(rng, nops):
         elif r < 53:
             prog.append(f"statfs {rng.choice(['.', 'd0', 'nope'])}")
         elif r < 58:
-            prog.append(f"mkdir {rng.choice(['d0', 'd1', 'd0/d2', 'd0/d2', 'd3', 'nope/d', 'f2'])} {rng.choice(['755', '700', '511'])}")
+            prog.append(f"mkdir {rng.choice(['d0', 'd1', 'd0/d2', 'd0/d2', 'd3', 'nope/d', 'f2', 'd0/..dir', 'd1/...', 'd0/b%20c'])} {rng.choice(['755', '700', '511'])}")
         elif r < 61:
             prog.append(f"rmdir {rng.choice(['d0', 'd1', 'd0/d2', 'd3', 'f2', 'nope'])}")
         elif r < 65:
-            prog.append(f"unlink {P()}")
+            prog.append(f"unlink {rng.choice(PATHS + ODD)}")
         elif r < 69:
-            prog.append(f"rename {P()} {P()}")
+            prog.append(f"rename {P()} {rng.choice(PATHS + ODD)}")
         elif r < 72:
             prog.append(f"link {P()} {rng.choice(['h0', 'd0/h1', 'd0/f0', 'nope/h'])}")
         elif r < 75:
@@ -707,18 +709,28 @@ def run(ctx):
                 ctx.notes["cleanup_accounting_" + m] = "skipped: no SQPOLL ring"; continue
             cases = [l for l in ls if l.startswith("case ")]
             ctx.count(len(cases)); ncase += len(cases)
-            bad = [l for l in cases if not re.search(r" uvblocks=0 heap=0 fds=0 ", l)]
+            bad = [l for l in cases if not re.search(r" uvblocks=0 heap=0 fds=0 ", l) or "FOREIGN-POINTER-TOUCHED" in l]
             if not bad and (rc != 0 or not ls or not ls[-1].startswith("end ")):
-                ctx.violation(f"cleanup-harness-crash-{m}", f"C11 cleanup accounting ({m}) exited {rc}: {err[-600:]}", {"mode": "cleanup", "route": m})
+                marks = re.findall(r"^at (\S+ \d+)$", err, re.M)
+                rep = "\n".join(l for l in err.splitlines() if not l.startswith("at "))
+                ctx.violation(f"cleanup-harness-crash-{m}", f"C11 cleanup accounting ({m}) exited {rc} in state `{marks[-1] if marks else '?'}` "
+                                                            f"(uv_fs_req_cleanup must be safe in every result state): {rep[:900]}",
+                              {"mode": "cleanup", "route": m, "state": marks[-1] if marks else None})
                 continue
             if bad:
-                kind = bad[0].split()[1].split("-")[0]
-                kind = bad[0].split()[1].split("-")[1] if kind == "cancel" else kind
-                ctx.violation(f"cleanup-residue-{kind}",
-                              f"C11 ({m} route): after uv_fs_req_cleanup the request still owns memory / descriptors: `{bad[0]}` "
-                              f"(uvblocks = live blocks of libuv's allocator, heap = bytes live in the process heap, fds = open descriptors; "
-                              f"{len(bad)} of {len(cases)} states affected)", {"mode": "cleanup", "route": m, "case": bad[0].split()[1]})
-                continue
+                seen, stop = set(), False
+                for b in bad:
+                    kind = b.split()[1].split("-")[0]
+                    kind = b.split()[1].split("-")[1] if kind == "cancel" else kind
+                    if kind in seen:
+                        continue
+                    seen.add(kind)
+                    ctx.violation(f"cleanup-residue-{kind}",
+                                  f"C11 ({m} route): after uv_fs_req_cleanup the request still owns memory / descriptors, or touched the "
+                                  f"caller's pointers: `{b}` (uvblocks = live blocks of libuv's allocator, heap = bytes live in the process "
+                                  f"heap, fds = open descriptors; {len(bad)} of {len(cases)} states affected)",
+                                  {"mode": "cleanup", "route": m, "case": b.split()[1]})
+                cases = [l for l in cases if l not in bad]
             res = [re.sub(r" cb=\d+$", "", l) for l in cases if not l.startswith("case cancel")]
             if ref is None:
                 ref = res
